@@ -71,7 +71,13 @@ TEXT = {
           "call, which emits exactly the refund - leaves supply and the sum unchanged; negative witness for the "
           "pre-enforcement-height double receive. The model is replayed against every accepted block of generated "
           "histories on a real node with all balances/supplies compared after each momentum, and a model-free monitor "
-          "checks balances + unreceived sends = supply <= max at every momentum and pool state.",
+          "checks balances + unreceived sends = supply <= max at every momentum and pool state. The histories include user "
+          "sends with negative / oversized / oddly written amounts delivered through every acceptance path (template, raw "
+          "ApplyBlock, protobuf, nom JSON, RPC JSON + PublishRawTransaction) with in-flight amounts read back from the ledger "
+          "and an own-balance delta monitor on every accepted user block, a supply-change monitor (supply moves only by "
+          "applied issue / mint / burn calls; a refused mint leaves it unchanged), chains whose genesis puts ZNN / QSR within "
+          "0..k reward mints of MaxSupply with reward epochs inside the history, and - through the genesis stream - the "
+          "equality on the chain started from every accepted generated / perturbed genesis configuration.",
   "design_ref": "§3 C01",
   "note": "Non-token contract methods enter as observed outcomes (status, descendants); hash freshness and the send-time "
           "check total <= max of issue calls are hypotheses of reachability; genesis consistency (T5) is C20; below "
@@ -212,11 +218,16 @@ TEXT = {
  "C12": {
   "text": "Kernel-checked theorems over the Go-faithful model of getTargetByDifficulty / greaterDifficulty / "
           "DifficultyToPlasma / FussedAmountToPlasma: threshold = 2^64 - 2^64/d for every 2 <= d < 2^64, comparison = "
-          "little-endian >=, plasma maps capped/monotone/paid-for; model tied to the tree by regenerated constants and "
-          "a differential stream over the full uint64 range.",
+          "little-endian >=, plasma maps capped/monotone/paid-for; a session of checks (checkSeq) answers every query by "
+          "the pure predicate whatever was asked before (check_seq_history_free / _honoured_iff / _repeat); enoughPlasma "
+          "sound (fused <= available, total = fused + PoW >= base, <= cap) and no double spend of plasma along unconfirmed "
+          "blocks; model tied to the tree by regenerated constants, a differential stream over the full uint64 range, "
+          "sessions of real CheckPoWNonce calls on the same (hash, nonce) under changing difficulties, and hand-built "
+          "blocks over the product fused claim x proof-of-work x account state through ApplyBlock on a real node.",
   "design_ref": "§3 C12",
   "note": "SHA3 is a parameter; the model is hand-written and tied by correspondence (boundary + random inputs); "
-          "enoughPlasma over ledger states is covered by correspondence only.",
+          "the facts enoughPlasma rests on (fused QSR, committed / uncommitted chain plasma, base cost) are read from the "
+          "real stores by the harness and are inputs of the model.",
   "technique": "Lean 4 proof (omega/induction) + regenerated constants + differential correspondence",
  },
  "C13": {
